@@ -247,7 +247,7 @@ func (r *resolver) enter(d Definition) ([]Definition, error) {
 				r.leftOutByFeature(hasCases, cident)
 				continue
 			}
-			if _, err := r.addDefinitions(c, c.popDataDefinitions()); err != nil {
+			if err := r.enterCase(hasCases, c); err != nil {
 				return nil, err
 			}
 		}
@@ -655,6 +655,25 @@ func isArrayStringEqual(a []string, b []string) bool {
 //	       c2      d3
 //	order would be:
 //	   Enter M, Enter A1, Enter c2, Leave c2, Leave a2, Enter b1,
+// a choice and a case are not nodes of the data tree: their conditions (their own, or those
+// of the uses or augment that brought them in) are conditions of the data nodes of the case,
+// evaluated where those nodes live
+func (r *resolver) enterCase(choice *Choice, c *ChoiceCase) error {
+	defs := c.popDataDefinitions()
+	for _, w := range []*When{c.When(), choice.When()} {
+		if w == nil {
+			continue
+		}
+		for _, def := range defs {
+			if h, hasWhen := def.(HasWhen); hasWhen {
+				h.setWhen(w.inheritedBy(h.When()))
+			}
+		}
+	}
+	_, err := r.addDefinitions(c, defs)
+	return err
+}
+
 //	   Enter d3, Leave d3, Leave b1, Leave M
 func (r *resolver) addDefinitions(x HasDataDefinitions, defs []Definition) ([]Definition, error) {
 	var added []Definition
@@ -1034,7 +1053,7 @@ func (r *resolver) expandAugment(y *Augment, parent Meta) error {
 				if err = targetChoice.addCase(cs); err != nil {
 					return err
 				}
-				_, err = r.enter(cs)
+				err = r.enterCase(targetChoice, cs)
 			} else {
 				// add implied case
 				cs := r.builder.Case(target, d.Ident())
